@@ -139,15 +139,71 @@ class FakeReader:
         return self.chunks.pop(0) if self.chunks else b""
 
 
-def make_client(R, buf, chunks):
-    cls = R.ioclient.WaveShareNmea2000Gateway
-    c = object.__new__(cls)
-    import logging
-    c.logger = logging.getLogger("x")
-    c._state = R.ioclient.State.CONNECTED
-    c._buffer = buf
+def build_client(M, chunks):
+    """the client is built by its own constructor and connected by its own _connect_impl over a stub serial port, so that
+    whatever state the class keeps is initialised by the code under test (M: instrumented or plain modules)"""
+    from . import aio
+    io = M.ioclient
+    reader = FakeReader(chunks)
+
+    class _W:
+        def write(self, b):
+            pass
+
+        async def drain(self):
+            return None
+
+        def close(self):
+            pass
+
+    async def open_serial_connection(**kw):
+        return reader, _W()
+    import asyncio as _asyncio
+
+    class _DummyTask:
+        def done(self):
+            return True
+
+        def cancel(self):
+            return False
+
+    class _NoLoop:
+        """the constructor starts background tasks; there is no event loop in this harness: they are not started"""
+
+        def create_task(self, coro, **k):
+            coro.close()
+            return _DummyTask()
+
+        ensure_future = create_task
+
+        def __getattr__(self, k):
+            return getattr(_asyncio, k)
+    saved = io.__dict__.get("serial_asyncio")
+    saved_aio = io.__dict__.get("asyncio")
+    io.serial_asyncio = aio.SerialShim(open_serial_connection)
+    io.asyncio = _NoLoop()
+    try:
+        c = io.WaveShareNmea2000Gateway("/dev/null")
+        drive(c._connect_impl())
+    finally:
+        if saved is not None:
+            io.serial_asyncio = saved
+        if saved_aio is not None:
+            io.asyncio = saved_aio
+    c._state = M.ioclient.State.CONNECTED
     c.queue = FakeQueue()
-    c.reader = FakeReader(chunks)
+    c.reader = reader
+    return c
+
+
+def held_bytes(c):
+    """bytes the client holds back between reads: every bytes-like attribute of the client object"""
+    return sum(len(v) for v in vars(c).values() if isinstance(v, (bytes, bytearray, SymBytes)))
+
+
+def make_client(R, buf, chunks):
+    c = build_client(R, chunks)
+    c._buffer = buf
     c.decoder = R.decoder.NMEA2000Decoder()
     calls = []
 
@@ -331,6 +387,66 @@ def bound_lemma(rep):
     rep.count("bound_obligations", len(obligations))
 
 
+HELD_MAX = 2 * KEEP_MAX + 119       # what the bound lemma proves (158) plus slack for an implementation's own bookkeeping
+
+
+def growth_check(rep, M, is_replay=False):
+    """(5) the bytes held back between reads stay bounded over long streams whose read boundaries never coincide with packet
+    boundaries: 60 valid packets back to back / separated by noise runs, read in pieces of 30,20,20,... / 7 / 33 / 64 / 100
+    bytes.  Whole calls of the real _receive_impl on concrete streams (the inductive bound (2) rests on the iteration lemma
+    (1); this part checks the bound itself on the running code, whatever bookkeeping the implementation uses)."""
+    from .plain import plain
+    N = plain()
+    enc = N.encoder.NMEA2000Encoder()
+    dec = N.decoder.NMEA2000Decoder()
+    from datetime import datetime
+    pk = []
+    for i in range(60):
+        m = dec._decode(127250, 2, 1 + i % 200, 255, datetime(2020, 1, 1), bytes([i % 250, 0x10, 0x27, 0xFF, 0x7F, 0xFF, 0x7F, 0xFD][::-1]), b"")
+        pk.append(enc.encode_usb(m)[0])
+    streams = {"back to back": b"".join(pk), "3 noise bytes between packets": b"".join(b"\x01\x02\x03" + x for x in pk),
+               "trailing 0xAA noise between packets": b"".join(x + b"\x00\xaa" for x in pk)}
+    n = 0
+    for sname, st in streams.items():
+        for rname, sizes in (("30,20,20,...", [30] + [20] * 400), ("7", [7] * 400), ("33", [33] * 400), ("64", [64] * 400), ("100", [100] * 400)):
+            chunks, pos = [], 0
+            for sz in sizes:
+                if pos >= len(st):
+                    break
+                chunks.append(st[pos:pos + sz])
+                pos += sz
+            c = build_client(M, list(chunks))
+            c.decoder = M.decoder.NMEA2000Decoder()
+            got = []
+            c.decoder._decode = lambda pgn, prio, src, dst, ts, data, raw, combined=False: got.append(src) or "MSG"
+            loader.TICK_HOOK[0] = None
+            worst = 0
+            try:
+                for _ in chunks:
+                    drive(c._receive_impl())
+                    worst = max(worst, held_bytes(c))
+            except Exception as e:
+                worst = -1
+                err = e
+            n += 1
+            bad = None
+            if worst < 0:
+                bad = "receive loop raised %r" % (err,)
+            elif worst > HELD_MAX:
+                bad = "the client held back %d bytes between reads (bound %d)" % (worst, HELD_MAX)
+            elif len(got) < 59:
+                bad = "only %d of 60 packets delivered" % len(got)
+            if bad:
+                text = "stream of 60 packets (%s), reads of %s bytes: %s" % (sname, rname, bad)
+                if is_replay:
+                    return True, text
+                rep.violation({"kind": "held-bytes", "stream": sname}, text, {"kind": "growth"})
+                break
+    if is_replay:
+        return False, "held bytes bounded on %d long streams" % n
+    rep.count("long_stream_runs", n)
+
+
 @guarded
 def _resync_worker(job):
     """(4) whole calls: noise + two valid packets, split into reads"""
@@ -455,6 +571,7 @@ def run(tier, seed):
     rs = run_jobs(rep, _resync_worker, [(0, False), (1, True), (1, False), (2, True), (3, False)] + ([(6, True), (24, False)] if tier == "thorough" else []), timeout_s=240 if tier == "quick" else 2400)
     bound_lemma(rep)
     checksum_check(rep, R)
+    growth_check(rep, R)
     st = sum(p["states"] for p in parts + rs if p and "states" in p)
     rep.coverage.update(states=max(1, st), transitions=max(1, st), traces_validated_against_impl=0,
                         explanation="states = symbolic paths (one per first-marker position / outcome); the bound is an inductive SMT argument on top of the iteration lemma")
@@ -469,15 +586,9 @@ def replay(r):
     N = plain(with_io=True)
 
     def run_client(chunks):
-        cls = N.ioclient.WaveShareNmea2000Gateway
-        c = object.__new__(cls)
         import logging
-        c.logger = logging.getLogger("x")
-        c.logger.disabled = True
-        c._state = N.ioclient.State.CONNECTED
-        c._buffer = bytearray()
-        c.queue = FakeQueue()
-        c.reader = FakeReader(chunks)
+        logging.disable(logging.CRITICAL)
+        c = build_client(N, chunks)
         c.decoder = N.decoder.NMEA2000Decoder()
         res = []
         c.decoder._decode = lambda pgn, prio, src, dst, ts, data, raw, combined=False: res.append((pgn, src, bytes(data))) or "MSG"
@@ -488,8 +599,10 @@ def replay(r):
                 co.send(None)
             except StopIteration:
                 pass
-            lens.append(len(c._buffer))
+            lens.append(held_bytes(c))
         return res, lens, c
+    if r["kind"] == "growth":
+        return growth_check(None, N, is_replay=True)
     if r["kind"] == "iteration":
         buf = bytes.fromhex(r["buffer"])
         res, lens, c = run_client([buf])
